@@ -224,7 +224,7 @@ pub fn drive(a: &Args) -> i32 {
             let ops = log.lock().expect("log").clone();
             let nodes = c.reals.len();
             if real {
-                c.shutdown_within(Duration::from_secs(5)).await;
+                c.shutdown_within(Duration::from_secs(20)).await;
             } else {
                 c.shutdown().await;
             }
